@@ -280,7 +280,7 @@ pub fn run(_kind: &str, ctx: &Ctx, out: &mut dyn Write) {
                 Some(m) => { generated = m; &generated }
                 None => continue,
             },
-            5 if auto1.is_some() => auto1.as_ref().unwrap(),
+            5 | 7 if auto1.is_some() => auto1.as_ref().unwrap(),
             _ => match vp9.as_ref() { Some(m) => m, None => continue },
         };
         let big = model.n > 1000;
@@ -302,6 +302,31 @@ pub fn run(_kind: &str, ctx: &Ctx, out: &mut dyn Write) {
         };
         let bad = k % 16 == 9;
         let (content, fdesc) = query_file(&mut rng, model.n, lines, bad);
+        // k = 7: the "overtaking" file: a few expensive queries (>20 literals: full recomputation of a
+        // 15 000-node model) among more than a thousand free ones (empty lines answer the cached
+        // count), so that a result is overtaken by far more than 1024 later results
+        let (content, fdesc) = if k == 7 && big {
+            let mut text = String::new();
+            let total = 2600;
+            for i in 0..total {
+                if i == 5 || i == 1300 || i == 2300 {
+                    let mut q: Vec<i32> = Vec::new();
+                    while q.len() < 25 {
+                        let l = lit(&mut rng, model.n);
+                        if !q.contains(&l) && !q.contains(&-l) {
+                            q.push(l);
+                        }
+                    }
+                    text.push_str(&join(&q));
+                } else if i % 3 == 0 {
+                    text.push_str("1");
+                }
+                text.push('\n');
+            }
+            (text.into_bytes(), format!("overtaking file: {} lines, 3 expensive queries among free ones", total))
+        } else {
+            (content, fdesc)
+        };
         std::fs::write(&qpath, &content).unwrap();
 
         for op in [Op::Count, Op::Sat] {
